@@ -45,7 +45,7 @@ theorem i32_32 : Op2.i32 32 = 32 := by decide
 
 /-! ## `CreateIndexed(8, 32, int32_t(h * -1))` -/
 
-theorem neg_height (h : Nat) (hh : h < 2147483648) : Op2.i32 ((h * (W32 - 1)) % W32) = -(h : Int) := by
+theorem neg_height (h : Nat) (hh : h < 2147483648) : Op2.i32 (((W32 - 1) * h) % W32) = -(h : Int) := by
   unfold Op2.i32 W32
   omega
 
@@ -56,7 +56,7 @@ def shapeOf (h : Nat) : Shape :=
     npal := 256, npix := 32 * h }
 
 theorem createShape_ok (h : Nat) (hc : 32 * h ≤ allocCap) :
-    createShape 8 32 (Op2.i32 ((h * (W32 - 1)) % W32)) = .ok (shapeOf h) := by
+    createShape 8 32 (Op2.i32 (((W32 - 1) * h) % W32)) = .ok (shapeOf h) := by
   have hh : h < 2147483648 := by unfold allocCap at hc; omega
   rw [neg_height h hh]
   unfold createShape ImageHeader.create
